@@ -34,22 +34,34 @@ PRECEDENCE = [('is_op_return', p) for p in PAIRS if p != 'is_op_return'] + \
 
 
 def outcomes(body):
-    """return sites of the evaluator: (bb, address canon, pattern variant, pattern canon, guards)"""
+    """return sites of the evaluator: (bb, address canon, pattern variant, pattern canon, guards). A pattern that
+    is chosen by an earlier branch (`let pattern = if .. {A} else {B}; new(addr, pattern)`) is split into one
+    outcome per alternative, each under the guards of the block that chose it."""
     out = []
     for d in body.defs().get(0, []):
         v = body.rvalue_expr(d[3]) if d[0] == 'assign' else body.call_expr(d[2])
         v = peel(v, calls=False)
-        addr = pat = None
+        addr = pat = pat_op = None
         if v[0] == 'call' and mir.method_name(v[1]) == 'new' and len(v[2]) == 2:
             addr, pat = v[2]
+            if d[0] == 'call':
+                pat_op = d[2].args[1]
         elif v[0] == 'aggr' and v[2].endswith('EvaluatedScript::EvaluatedScript'):
             f = dict(v[3])
             addr, pat = f.get('address'), f.get('pattern')
+            if d[0] == 'assign' and d[3]['k'] == 'aggr' and 'pattern' in d[3].get('fields', []):
+                pat_op = d[3]['ops'][d[3]['fields'].index('pattern')]
         else:
             raise Unrecognised('cascade', 'return value is not an EvaluatedScript construction: %s' % canon(v)[:120])
-        p = peel(pat, calls=False)
-        variant = p[2].split('::')[-1] if p[0] == 'aggr' else None
-        out.append((d[1], addr, variant, pat, util.guards_at(body, d[1])))
+        here = util.guards_at(body, d[1])
+        alts = util.value_alternatives(body, pat_op) if pat_op is not None else None
+        if not alts or len(alts) < 2:
+            alts = [(pat, d[1])]
+        for pe, pbb in alts:
+            p = peel(pe, calls=False)
+            variant = p[2].split('::')[-1] if p[0] == 'aggr' else None
+            g = here if pbb == d[1] else sorted(set(here) | set(util.guards_at(body, pbb)))
+            out.append((pbb, addr, variant, pe, g))
     return out
 
 
@@ -126,7 +138,7 @@ def rule_addr(ctx):
     b = prog.one('script::eval_from_bytes_bitcoin')
     outs = outcomes(b)
     net = 'phi(Network::Bitcoin{} | Network::Testnet{})'
-    lib = 'phi(Option::None{} | Option::Some{0: format(new(b"\\u00c0\\u0000", [new_display((from_script(%s, %s) as Ok).0)]))})' % (S, net)
+    lib = 'phi(Option::None{} | Option::Some{0: format(new(b"\\u00c0\\u0000", [new_display(from_script(%s, %s)?)]))})' % (S, net)
     for bb, addr, variant, pat, guards in outs:
         a = canon(addr)
         if variant in ('OpReturn', 'Unspendable'):
@@ -150,7 +162,7 @@ def rule_addr(ctx):
     # p2pk_to_string
     p = prog.one('script::p2pk_to_string')
     ctx.touch(p)
-    push = '((each(instructions(a1)) as Ok).0 as PushBytes).0'
+    push = '(each(instructions(a1))? as PushBytes).0'
     rets = []
     for df in p.defs().get(0, []):
         v = p.rvalue_expr(df[3]) if df[0] == 'assign' else p.call_expr(df[2])
@@ -172,7 +184,7 @@ def rule_unspendable(ctx):
     prog = ctx.prog
     u = prog.one('script::is_provable_unspendable')
     ctx.touch(u)
-    cls = 'classify((first(a1) as Some).0, ClassifyContext::Legacy{})'
+    cls = 'classify(first(a1)?, ClassifyContext::Legacy{})'
     acc = set()
     rej_empty = False
     for df in u.defs().get(0, []):
